@@ -1,9 +1,11 @@
 package main
 
 import (
+	"cmp"
 	"fmt"
 	"math"
 	"sort"
+	"strconv"
 	"strings"
 
 	"github.com/esimov/gogu/btree"
@@ -70,8 +72,77 @@ const (
 	c10Trav   = 4
 )
 
+// Instances.  The wire and the model know nothing about Go types.  A history whose FIRST record is
+// Get(0) with third word 1 or 2 (a word the model ignores; it is 0 in every other stream) is run on
+// another instantiation of the generic type:
+//
+//	1  BTree[string, string]   key = 20-digit decimal of (k + 2^63), built with strconv at EVERY use
+//	                           (no two operations share a string), value = strconv.Itoa(v)
+//	2  BTree[float64, float64] key = k/4 (exact, |k| <= 2^50, no NaN, never -0), value = v + 0.5
+//
+// Both key codecs are injective and strictly increasing, so the history means the same ordered
+// map; keys and values coming out of Get/Traverse are decoded back to the ints of the wire.
+const (
+	c10InstInt    = 0
+	c10InstString = 1
+	c10InstFloat  = 2
+)
+
+var c10InstName = [3]string{"BTree[int,int]", "BTree[string,string]", "BTree[float64,float64]"}
+
+func c10Inst(in []int64) int {
+	if len(in) >= 3 && in[0] == c10Get && (in[2] == c10InstString || in[2] == c10InstFloat) {
+		return int(in[2])
+	}
+	return c10InstInt
+}
+
+func c10StrKey(k int) (string, bool) {
+	d := strconv.FormatUint(uint64(k)^(1<<63), 10) // k + 2^63 as an unsigned number: order-preserving
+	return strings.Repeat("0", 20-len(d)) + d, true
+}
+
+func c10StrUnkey(s string) int64 {
+	u, err := strconv.ParseUint(s, 10, 64)
+	if err != nil || len(s) != 20 {
+		return -888888 // not a key the harness ever built
+	}
+	return c10Wire(int(u ^ (1 << 63)))
+}
+
+func c10StrUnval(s string) int64 {
+	x, err := strconv.Atoi(s)
+	if err != nil {
+		return -888888
+	}
+	return int64(x)
+}
+
+func c10FloatKey(k int) (float64, bool) {
+	if k < -(1<<50) || k > 1<<50 {
+		return 0, false
+	}
+	return float64(k) * 0.25, true
+}
+
 func execC10(in []int64) []int64 {
-	t := btree.New[int, int]()
+	switch c10Inst(in) {
+	case c10InstString:
+		return c10Run[string, string](in, c10StrKey, c10StrUnkey,
+			func(v int) string { return strconv.Itoa(v) }, c10StrUnval)
+	case c10InstFloat:
+		return c10Run[float64, float64](in, c10FloatKey,
+			func(x float64) int64 { return c10Wire(int(x * 4)) },
+			func(v int) float64 { return float64(v) + 0.5 },
+			func(x float64) int64 { return int64(x - 0.5) })
+	}
+	return c10Run[int, int](in, func(k int) (int, bool) { return k, true },
+		func(k int) int64 { return c10Wire(k) }, func(v int) int { return v }, func(v int) int64 { return int64(v) })
+}
+
+func c10Run[K cmp.Ordered, V any](in []int64, mkKey func(int) (K, bool), unKey func(K) int64,
+	mkVal func(int) V, unVal func(V) int64) []int64 {
+	t := btree.New[K, V]()
 	out := make([]int64, 0, 2*len(in)+16)
 	state := func() {
 		out = append(out, int64(t.Size()), b2i(t.IsEmpty()), int64(t.Height()))
@@ -81,29 +152,34 @@ func execC10(in []int64) []int64 {
 			return append(out, -999999) // not a whole record (never generated)
 		}
 		op, v := in[i], int(in[i+2])
-		k, okKey := c10Key(in[i+1])
+		ki, okKey := c10Key(in[i+1])
 		if !okKey {
 			return append(out, -999999) // outside the coded key range (never generated)
 		}
+		if _, ok := mkKey(ki); !ok {
+			return append(out, -999999) // not representable in this instance (never generated)
+		}
+		key := func() K { k, _ := mkKey(ki); return k } // a fresh key value for every use
 		bad := false
 		if try(func() {
 			switch op {
 			case c10Put:
-				t.Put(k, v)
+				t.Put(key(), mkVal(v))
 				state()
 			case c10Remove:
-				t.Remove(k)
+				t.Remove(key())
 				state()
 			case c10Get:
-				x, ok := t.Get(k)
-				if !ok {
-					x = 0 // the zero value is what Go returns; make it explicit
+				x, ok := t.Get(key())
+				xv := int64(0) // not found: the zero value is what Go returns; make it explicit
+				if ok {
+					xv = unVal(x)
 				}
-				out = append(out, b2i(ok), int64(x))
+				out = append(out, b2i(ok), xv)
 				state()
 			case c10Trav:
 				var kv []int64
-				t.Traverse(func(k, v int) { kv = append(kv, c10Wire(k), int64(v)) })
+				t.Traverse(func(k K, v V) { kv = append(kv, unKey(k), unVal(v)) })
 				out = append(out, int64(len(kv)/2))
 				out = append(out, kv...)
 				state()
@@ -119,7 +195,7 @@ func execC10(in []int64) []int64 {
 	}
 	if try(func() {
 		var kv []int64
-		t.Traverse(func(k, v int) { kv = append(kv, c10Wire(k), int64(v)) })
+		t.Traverse(func(k K, v V) { kv = append(kv, unKey(k), unVal(v)) })
 		out = append(out, int64(len(kv)/2))
 		out = append(out, kv...)
 	}) {
@@ -130,8 +206,14 @@ func execC10(in []int64) []int64 {
 
 func describeC10(in []int64) string {
 	var sb strings.Builder
-	for i := 0; i+2 < len(in); i += 3 {
-		if i > 0 {
+	start := 0
+	if inst := c10Inst(in); inst != c10InstInt {
+		// the selector record (it is executed as Get of key 0 on the empty tree)
+		fmt.Fprintf(&sb, "on %s (keys/values shown as the ints they encode): ", c10InstName[inst])
+		start = 3
+	}
+	for i := start; i+2 < len(in); i += 3 {
+		if i > start {
 			sb.WriteString("; ")
 		}
 		key, _ := c10Key(in[i+1]) // the Go key the code stands for
@@ -212,9 +294,19 @@ func (s *c10Shadow) op(op, k int) string {
 }
 
 type c10Case struct {
-	w  W
-	sh *c10Shadow
-	g  *Gen
+	w    W
+	sh   *c10Shadow
+	g    *Gen
+	inst int
+}
+
+// c10NewCase starts a case; for an instance other than int it begins with the selector record.
+func c10NewCase(g *Gen, inst int) *c10Case {
+	c := &c10Case{sh: newC10Shadow(), g: g, inst: inst}
+	if inst != c10InstInt {
+		c.add(c10Get, 0, inst)
+	}
+	return c
 }
 
 func (c *c10Case) add(op, k, v int) {
@@ -247,6 +339,10 @@ func c10Bucket(n int) string {
 // answered: the last Height word before the traversal tells whether a root
 // split happened.
 func (c *c10Case) emit(stream string) {
+	if c.inst != c10InstInt { // the same script on another instantiation: stream "instances"
+		c.g.Count("instances:" + c10InstName[c.inst] + ":" + stream)
+		stream = "instances"
+	}
 	in := c.w.Out()
 	obs := c.g.P.Exec(in)
 	// height = the third word of the last op block; recover it by replaying lengths
@@ -332,6 +428,8 @@ func c10Order(o, n int) []int {
 }
 
 func genC10(g *Gen) {
+	inst := c10InstInt // the instantiation the closures below generate for
+	newCase := func() *c10Case { return c10NewCase(g, inst) }
 	// ---- exhaustive small scope ----
 	// every sequence of up to L mutators over {Put k, Remove k : k in 0..5}; each mutator is
 	// followed by Get of its key (so every Remove;Get, Put;Get, Remove;Get;Put ... pattern is
@@ -339,7 +437,7 @@ func genC10(g *Gen) {
 	// 100*(i+1)+k, so a stale value is visible.
 	L := g.Pick(5, 6)
 	seqsUpTo(12, L, func(seq []int) {
-		c := &c10Case{sh: newC10Shadow(), g: g}
+		c := newCase()
 		for i, x := range seq {
 			k := x % 6
 			if x < 6 {
@@ -373,7 +471,7 @@ func genC10(g *Gen) {
 			}
 			return
 		}
-		c := &c10Case{sh: newC10Shadow(), g: g}
+		c := newCase()
 		for j, k := range perm {
 			c.add(c10Put, k, 100+j)
 		}
@@ -394,17 +492,19 @@ func genC10(g *Gen) {
 	// case: Height is observed after every Put, so a tree that grows too tall in ONE of the
 	// orders is reported with a replay of about a dozen Puts.  Keys are 2i-n (negative and
 	// positive, odd keys absent).
-	maxN := g.Pick(40, 160)
-	for n := 5; n <= maxN; n++ {
-		for o := 0; o < c10NumOrders; o++ {
-			c := &c10Case{sh: newC10Shadow(), g: g}
-			for j, i := range c10Order(o, n) {
-				c.add(c10Put, 2*i-n, 100+j)
+	genOrders := func(maxN int) {
+		for n := 5; n <= maxN; n++ {
+			for o := 0; o < c10NumOrders; o++ {
+				c := newCase()
+				for j, i := range c10Order(o, n) {
+					c.add(c10Put, 2*i-n, 100+j)
+				}
+				g.Count("orders:" + c10OrderName[o])
+				c.emit("orders")
 			}
-			g.Count("orders:" + c10OrderName[o])
-			c.emit("orders")
 		}
 	}
+	genOrders(g.Pick(40, 160))
 
 	// ---- tombstones at every position (stream "tombstones") ----
 	// a tree of n = 4..14 (thorough 4..26) keys built in each order; then
@@ -416,72 +516,74 @@ func genC10(g *Gen) {
 	//      Traverse, Get each, re-Put the first one, Traverse;
 	//  (c) Remove every key (ascending / descending), Traverse, then re-Put all of them in
 	//      another order: Size returns to n, Height must not move.
-	maxT := g.Pick(14, 26)
-	for n := 4; n <= maxT; n++ {
-		for o := 0; o < c10NumOrders; o++ {
-			ord := c10Order(o, n)
-			build := func() *c10Case {
-				c := &c10Case{sh: newC10Shadow(), g: g}
-				for j, i := range ord {
-					c.add(c10Put, 2*i-n, 100+j)
+	genTombstones := func(maxT int) {
+		for n := 4; n <= maxT; n++ {
+			for o := 0; o < c10NumOrders; o++ {
+				ord := c10Order(o, n)
+				build := func() *c10Case {
+					c := newCase()
+					for j, i := range ord {
+						c.add(c10Put, 2*i-n, 100+j)
+					}
+					return c
 				}
-				return c
-			}
-			for i := 0; i < n; i++ { // (a)
-				x := 2*i - n
-				c := build()
-				c.add(c10Remove, x, 0)
-				for _, y := range []int{x, x - 2, x + 2, x - 1, x + 1} {
-					c.add(c10Get, y, 0)
-				}
-				c.add(c10Trav, 0, 0)
-				c.add(c10Remove, x, 0)
-				c.add(c10Put, x, 900+i)
-				c.add(c10Get, x, 0)
-				c.add(c10Trav, 0, 0)
-				g.Count("tombstones:single")
-				c.emit("tombstones")
-			}
-			for w := 2; w <= 4; w++ { // (b)
-				for i := 0; i+w <= n; i++ {
+				for i := 0; i < n; i++ { // (a)
+					x := 2*i - n
 					c := build()
-					for j := i; j < i+w; j++ {
+					c.add(c10Remove, x, 0)
+					for _, y := range []int{x, x - 2, x + 2, x - 1, x + 1} {
+						c.add(c10Get, y, 0)
+					}
+					c.add(c10Trav, 0, 0)
+					c.add(c10Remove, x, 0)
+					c.add(c10Put, x, 900+i)
+					c.add(c10Get, x, 0)
+					c.add(c10Trav, 0, 0)
+					g.Count("tombstones:single")
+					c.emit("tombstones")
+				}
+				for w := 2; w <= 4; w++ { // (b)
+					for i := 0; i+w <= n; i++ {
+						c := build()
+						for j := i; j < i+w; j++ {
+							c.add(c10Remove, 2*j-n, 0)
+						}
+						c.add(c10Trav, 0, 0)
+						for j := i - 1; j <= i+w; j++ {
+							c.add(c10Get, 2*j-n, 0)
+						}
+						c.add(c10Put, 2*i-n, 800+i)
+						c.add(c10Trav, 0, 0)
+						g.Count("tombstones:window")
+						c.emit("tombstones")
+					}
+				}
+				for dir := 0; dir < 2; dir++ { // (c)
+					c := build()
+					for i := 0; i < n; i++ {
+						j := i
+						if dir == 1 {
+							j = n - 1 - i
+						}
 						c.add(c10Remove, 2*j-n, 0)
 					}
 					c.add(c10Trav, 0, 0)
-					for j := i - 1; j <= i+w; j++ {
-						c.add(c10Get, 2*j-n, 0)
+					c.add(c10Get, 2*ord[0]-n, 0)
+					for j, i := range c10Order((o+1+dir)%c10NumOrders, n) {
+						c.add(c10Put, 2*i-n, 700+j)
 					}
-					c.add(c10Put, 2*i-n, 800+i)
 					c.add(c10Trav, 0, 0)
-					g.Count("tombstones:window")
+					g.Count("tombstones:all")
 					c.emit("tombstones")
 				}
 			}
-			for dir := 0; dir < 2; dir++ { // (c)
-				c := build()
-				for i := 0; i < n; i++ {
-					j := i
-					if dir == 1 {
-						j = n - 1 - i
-					}
-					c.add(c10Remove, 2*j-n, 0)
-				}
-				c.add(c10Trav, 0, 0)
-				c.add(c10Get, 2*ord[0]-n, 0)
-				for j, i := range c10Order((o+1+dir)%c10NumOrders, n) {
-					c.add(c10Put, 2*i-n, 700+j)
-				}
-				c.add(c10Trav, 0, 0)
-				g.Count("tombstones:all")
-				c.emit("tombstones")
-			}
 		}
 	}
+	genTombstones(g.Pick(14, 26))
 
 	// ---- edge inputs (there is no invalid input for this API) ----
 	edge := func(ops ...[3]int) {
-		c := &c10Case{sh: newC10Shadow(), g: g}
+		c := newCase()
 		for _, o := range ops {
 			c.add(o[0], o[1], o[2])
 		}
@@ -509,7 +611,7 @@ func genC10(g *Gen) {
 		1 << 31, 1<<32 + 1, 1 << 60, 1<<62 - 1, 1 << 62, 1<<62 + 1, math.MaxInt64 - 1, math.MaxInt64}
 	absent := []int{math.MinInt64 + 2, -(1 << 62) - 2, -2, 2, 1<<62 + 2, math.MaxInt64 - 2}
 	extreme := func(keys []int, perm []int, tag string) {
-		c := &c10Case{sh: newC10Shadow(), g: g}
+		c := newCase()
 		code := func(k int) int { return int(c10Wire(k)) }
 		for j, i := range perm {
 			c.add(c10Put, code(keys[i]), 100+j)
@@ -546,14 +648,17 @@ func genC10(g *Gen) {
 		}
 	}
 	sort.Ints(mixed)
-	for _, set := range [][]int{xs, mixed, {math.MinInt64, math.MaxInt64, 0, -(1 << 62), 1 << 62}} {
-		for o := 0; o < c10NumOrders; o++ {
-			extreme(set, c10Order(o, len(set)), "fixed-order")
-		}
-		for r := 0; r < g.Pick(40, 400); r++ {
-			extreme(set, g.Rng.Perm(len(set)), "random-order")
+	genExtreme := func(nRandom int) {
+		for _, set := range [][]int{xs, mixed, {math.MinInt64, math.MaxInt64, 0, -(1 << 62), 1 << 62}} {
+			for o := 0; o < c10NumOrders; o++ {
+				extreme(set, c10Order(o, len(set)), "fixed-order")
+			}
+			for r := 0; r < nRandom; r++ {
+				extreme(set, g.Rng.Perm(len(set)), "random-order")
+			}
 		}
 	}
+	genExtreme(g.Pick(40, 400))
 
 	// ---- large trees (stream "large") ----
 	// n = 600 and 1100 keys 3i-n in sorted, reversed, interleaved (outside-in) and random order,
@@ -565,7 +670,7 @@ func genC10(g *Gen) {
 	// keys between them and beyond both ends.  Height/Size/IsEmpty after every operation, a
 	// Traverse after the removals and the final one.
 	large := func(n, order int) {
-		c := &c10Case{sh: newC10Shadow(), g: g}
+		c := newCase()
 		var ord []int
 		switch order {
 		case 0, 1, 2:
@@ -636,7 +741,7 @@ func genC10(g *Gen) {
 	// lookups of live / removed / absent keys; ends with lookups of every removed key and a
 	// sample of the others.
 	random := func(K, nkeys int, order int, churn float64) {
-		c := &c10Case{sh: newC10Shadow(), g: g}
+		c := newCase()
 		keys := g.Rng.Perm(K + 1)[:nkeys]
 		switch order {
 		case 0:
@@ -710,9 +815,35 @@ func genC10(g *Gen) {
 	for i := 0; i < nBig; i++ {
 		random(400, 60+g.Rng.Intn(341), i%3, 0.35)
 	}
+
+	// ---- other instantiations of the generic type (stream "instances") ----
+	// the same scripts — the systematic orders up to 40 keys, the tombstone scripts on trees of
+	// 4..10 (thorough 4..14) keys, random histories, two large trees; on strings also the extreme
+	// keys — executed on BTree[string,string] and BTree[float64,float64] (see execC10): anything in
+	// the code that depends on the key or value TYPE (a fast path, an equality through the
+	// representation, a comparison through formatting) shows as a disagreement with the model.
+	for inst = c10InstString; inst <= c10InstFloat; inst++ {
+		genOrders(40)
+		genTombstones(g.Pick(10, 14))
+		if inst == c10InstString {
+			genExtreme(g.Pick(6, 60)) // float64 cannot hold MaxInt64-1 exactly: strings only
+			large(600, 1)
+			large(1100, 0)
+		} else {
+			large(600, 3)
+			large(1100, 1)
+		}
+		for i := 0; i < g.Pick(300, 3000); i++ {
+			random(40, 4+g.Rng.Intn(30), g.Rng.Intn(3), 0.5)
+		}
+		for i := 0; i < g.Pick(40, 400); i++ {
+			random(400, 60+g.Rng.Intn(341), i%3, 0.35)
+		}
+	}
+	inst = c10InstInt
 }
 
 func init() {
 	register(&Prop{ID: "C10", Exec: execC10, Gen: genC10, Describe: describeC10,
-		Rule: "exhaustive: every sequence of up to 5 (thorough 6) mutators over {Put k, Remove k : k in 0..5} (the value put at step i is 100(i+1)+k), each mutator followed by Get of its key, ending with Get 0..5 and Traverse; plus every insertion order of the keys 0..7 (thorough 0..8; height 2 is reached) followed by Remove of the first and the middle key put, Get of every key, re-Put and Get of the first key; Size/IsEmpty/Height observed after every operation. orders: 5..40 (thorough 5..160) keys 2i-n put in six fixed orders (ascending, descending, zig-zag outside-in and inside-out, evens up then odds down, saw-tooth of 4), Puts only, Height after every Put. tombstones: trees of 4..14 (thorough 4..26) keys built in each of those orders, then for EVERY key: Remove, Get of it / its neighbours / the absent keys beside it, Traverse, Remove again, re-Put, Get, Traverse; for every window of 2..4 consecutive keys: Remove all, Traverse, Get, re-Put one, Traverse; Remove all keys, Traverse, re-Put all in another order, Traverse. extreme: the 19 keys MinInt64, MinInt64+1, -2^62-1..-2^62+1, -2^60, -1000003, -1, 0, 1, 7, 2^31, 2^32+1, 2^60, 2^62-1..2^62+1, MaxInt64-1, MaxInt64 alone, mixed with -30..30 (40 keys), and the 5 keys MinInt64, -2^62, 0, 2^62, MaxInt64, in the six fixed orders and 40 (thorough 400) random orders each: Get of every key and of absent neighbours, Remove of every other key put, Traverse, Get of every key, re-Put of half of the removed ones (keys travel as order-preserving codes because the model runner reads 63-bit integers). large: 600 and 1100 keys 3i-n in sorted, reversed, interleaved and random order, 2500 sorted and reversed, 5000 random (thorough: 600, 1100, 2500, 5000 in all four orders, 10000 reversed and random); 7..12 levels, Remove of half of them, Traverse, re-Put of half of the removed, Get of EVERY key ever inserted and of absent keys between and beyond them. edge stream: empty history, operations on the empty tree, negative and +-2^62 keys, one key put/removed repeatedly. random: 1500 (thorough 15000) histories over keys 0..40 and 240 (thorough 2400) over keys 0..400 (60..400 distinct keys, 3..8 levels), keys first put in sorted / reversed / random order, interleaved with overwrites, removes of live, already-removed and absent keys, re-puts of removed keys, lookups of live, removed and absent keys and an occasional Traverse in the middle. non-trivial = the root split at least once (final Height >= 1) AND a live key was removed and later looked up or put again; distinct = distinct wire input"})
+		Rule: "exhaustive: every sequence of up to 5 (thorough 6) mutators over {Put k, Remove k : k in 0..5} (the value put at step i is 100(i+1)+k), each mutator followed by Get of its key, ending with Get 0..5 and Traverse; plus every insertion order of the keys 0..7 (thorough 0..8; height 2 is reached) followed by Remove of the first and the middle key put, Get of every key, re-Put and Get of the first key; Size/IsEmpty/Height observed after every operation. orders: 5..40 (thorough 5..160) keys 2i-n put in six fixed orders (ascending, descending, zig-zag outside-in and inside-out, evens up then odds down, saw-tooth of 4), Puts only, Height after every Put. tombstones: trees of 4..14 (thorough 4..26) keys built in each of those orders, then for EVERY key: Remove, Get of it / its neighbours / the absent keys beside it, Traverse, Remove again, re-Put, Get, Traverse; for every window of 2..4 consecutive keys: Remove all, Traverse, Get, re-Put one, Traverse; Remove all keys, Traverse, re-Put all in another order, Traverse. extreme: the 19 keys MinInt64, MinInt64+1, -2^62-1..-2^62+1, -2^60, -1000003, -1, 0, 1, 7, 2^31, 2^32+1, 2^60, 2^62-1..2^62+1, MaxInt64-1, MaxInt64 alone, mixed with -30..30 (40 keys), and the 5 keys MinInt64, -2^62, 0, 2^62, MaxInt64, in the six fixed orders and 40 (thorough 400) random orders each: Get of every key and of absent neighbours, Remove of every other key put, Traverse, Get of every key, re-Put of half of the removed ones (keys travel as order-preserving codes because the model runner reads 63-bit integers). large: 600 and 1100 keys 3i-n in sorted, reversed, interleaved and random order, 2500 sorted and reversed, 5000 random (thorough: 600, 1100, 2500, 5000 in all four orders, 10000 reversed and random); 7..12 levels, Remove of half of them, Traverse, re-Put of half of the removed, Get of EVERY key ever inserted and of absent keys between and beyond them. edge stream: empty history, operations on the empty tree, negative and +-2^62 keys, one key put/removed repeatedly. random: 1500 (thorough 15000) histories over keys 0..40 and 240 (thorough 2400) over keys 0..400 (60..400 distinct keys, 3..8 levels), keys first put in sorted / reversed / random order, interleaved with overwrites, removes of live, already-removed and absent keys, re-puts of removed keys, lookups of live, removed and absent keys and an occasional Traverse in the middle. instances: the orders (5..40 keys), the tombstone scripts on trees of 4..10 (thorough 4..14) keys, 300+40 (thorough 3000+400) random histories and two large trees (600 and 1100 keys) executed on BTree[string,string] (key = 20-digit decimal of k+2^63 built with strconv at every use, value = decimal string; also the extreme keys) and on BTree[float64,float64] (key = k/4, value = v+0.5; no NaN), decoded back to the ints of the wire; such a case starts with the selector record Get(0) whose ignored third word names the instance. non-trivial = the root split at least once (final Height >= 1) AND a live key was removed and later looked up or put again; distinct = distinct wire input"})
 }
